@@ -417,6 +417,17 @@ def rule_tpl_lint(ctx):
                             if T.ir_text(bh).replace(" ", "") == htxt and attr_allows(battrs, "deprecated"):
                                 ok = True
                 if not ok:
+                    # the attributes hoisted into a local template interpolated before the impl (`#impl_attrs impl ..`):
+                    # read the template with its local sub-templates spliced in
+                    class _Composed:
+                        ir = T.compose(t.fn, t.ir)
+
+                    htxt = T.ir_text(hdr).replace(" ", "")
+                    for ch, cb, cattrs in impl_headers(_Composed):
+                        if T.ir_text(ch).replace(" ", "") == T.ir_text(T.compose(t.fn, hdr)).replace(" ", "") or T.ir_text(ch).replace(" ", "") == htxt:
+                            if attr_allows(cattrs, "deprecated"):
+                                ok = True
+                if not ok:
                     ctx.report(
                         f"{t.key()}:no-allow-deprecated",
                         f"{rel}:{t.line}",
